@@ -5,6 +5,7 @@
 -/
 import Proofs.C03
 import Proofs.C03Mix
+import Proofs.C20
 
 open Finset
 
@@ -139,6 +140,43 @@ theorem order_within_cutoff (n nwn : ℕ) (path dens : ℕ → ℝ) (l : ℕ) (h
 
 example := order_within_cutoff 2 2 (fun _ => (1 : ℝ)) (fun _ => (1 : ℝ)) 0 (fun _ _ => by norm_num)
   (fun _ _ => by norm_num) nv nv.reverse nv_nonneg (List.reverse_perm nv).symm 0 (by norm_num)
+
+/-! ### correlated-k opacities (`opacity_method = ktables`): the molecular absorption among other sources -/
+
+open Taurex.KTau in
+/-- the correlated-k kernel (`contribute_ktau`: `tau[layer,wn] += -log Σ_g w_g exp(-tau_g)`) ADDS the molecular optical depth to
+    whatever the sources added earlier have put into the layer (`acc`) -/
+theorem ktable_adds_to_earlier (sigma3 : List (List ℝ)) (path dens ws : List ℝ) (n l : ℕ) (acc : ℝ) :
+    ktauRow sigma3 path dens ws n l acc = acc + ktauRow sigma3 path dens ws n l 0 := by
+  unfold ktauRow; ring
+
+example : KTau.ktauRow [[2, 5], [3, 7]] [1, 1] [1, 1] [(1/4 : ℝ), 3/4] 2 0 6
+    = 6 + KTau.ktauRow [[2, 5], [3, 7]] [1, 1] [1, 1] [(1/4 : ℝ), 3/4] 2 0 0 := ktable_adds_to_earlier _ _ _ _ _ _ _
+
+open Taurex.KTau in
+/-- hence the layer's optical depth does not depend on whether a cross-section source (`contribute_tau`, `tauRowX`) was added
+    before or after the k-table absorption -/
+theorem ktable_order (sigma3 : List (List ℝ)) (sigma path dens ws : List ℝ) (n l : ℕ) (acc : ℝ) :
+    ktauRow sigma3 path dens ws n l (tauRowX sigma path dens n l acc)
+      = tauRowX sigma path dens n l (ktauRow sigma3 path dens ws n l acc) := by
+  rw [tauRowX_acc, tauRowX_acc sigma path dens n l (ktauRow sigma3 path dens ws n l acc)]
+  unfold ktauRow; ring
+
+example : KTau.ktauRow [[2, 5], [3, 7]] [1, 1] [1, 1] [(1/4 : ℝ), 3/4] 2 0 (KTau.tauRowX [4, 9] [1, 1] [1, 1] 2 0 0)
+    = KTau.tauRowX [4, 9] [1, 1] [1, 1] 2 0 (KTau.ktauRow [[2, 5], [3, 7]] [1, 1] [1, 1] [(1/4 : ℝ), 3/4] 2 0 0) :=
+  ktable_order _ _ _ _ _ _ _ _
+
+open Taurex.KTau in
+/-- and the transmittance of the two sources together is the product of the transmittances of each alone -/
+theorem ktable_product (sigma3 : List (List ℝ)) (sigma path dens ws : List ℝ) (n l : ℕ) :
+    Transmission.trans (ktauRow sigma3 path dens ws n l (tauRowX sigma path dens n l 0))
+      = Transmission.trans (tauRowX sigma path dens n l 0) * Transmission.trans (ktauRow sigma3 path dens ws n l 0) := by
+  rw [ktable_adds_to_earlier]
+  unfold Transmission.trans
+  simp only [exp_real]
+  rw [← Real.exp_add]; congr 1; ring
+
+example := ktable_product [[2, 5], [3, 7]] [4, 9] [1, 1] [1, 1] [(1/4 : ℝ), 3/4] 2 0
 
 /-! ### which abundance a component is weighted with: the look-up rule, and chemistries with freed molecules -/
 
